@@ -296,6 +296,32 @@ impl LanguageServer for Server {
 impl Server {
     fn set_file_content(&mut self, uri: &Url, text: &str) {
         let path = UrlExt::to_file_path(uri);
+
+        // The file-table lock must not be held while the salsa input is written: the write waits
+        // until every outstanding snapshot is dropped, and the tasks owning those snapshots take
+        // the file-table read lock part-way through.
+        let file_id = {
+            #[cfg(feature = "verif")]
+            let _released = crate::verif::OnDrop(crate::verif::Ev::VfsWriteReleased);
+            #[cfg(feature = "verif")]
+            crate::verif::point(crate::verif::Ev::VfsWriteWant);
+            let mut vfs = self.vfs.write().unwrap();
+            #[cfg(feature = "verif")]
+            crate::verif::point(crate::verif::Ev::VfsWriteAcquired);
+            let file_id = vfs.assign_or_get_file_id(path);
+            vfs.set_open_document(file_id, text.to_string());
+            file_id
+        };
+
+        let text = Arc::from(text);
+        #[cfg(feature = "verif")]
+        crate::verif::point(crate::verif::Ev::SalsaWriteWant("set_file_content"));
+        self.host.set_file_content(file_id, text);
+        #[cfg(feature = "verif")]
+        crate::verif::point(crate::verif::Ev::SalsaWriteDone("set_file_content"));
+
+        // No snapshot is alive any more and only this thread creates them, so the input writes
+        // done while the include graph is walked cannot wait for a task.
         #[cfg(feature = "verif")]
         let _released = crate::verif::OnDrop(crate::verif::Ev::VfsWriteReleased);
         #[cfg(feature = "verif")]
@@ -303,14 +329,6 @@ impl Server {
         let mut vfs = self.vfs.write().unwrap();
         #[cfg(feature = "verif")]
         crate::verif::point(crate::verif::Ev::VfsWriteAcquired);
-        let file_id = vfs.assign_or_get_file_id(path);
-        vfs.set_open_document(file_id, text.to_string());
-        let text = Arc::from(text);
-        #[cfg(feature = "verif")]
-        crate::verif::point(crate::verif::Ev::SalsaWriteWant("set_file_content"));
-        self.host.set_file_content(file_id, text);
-        #[cfg(feature = "verif")]
-        crate::verif::point(crate::verif::Ev::SalsaWriteDone("set_file_content"));
         #[cfg(feature = "verif")]
         crate::verif::point(crate::verif::Ev::SalsaWriteWant("set_root_file"));
         self.host.set_root_file(&mut *vfs, file_id);
